@@ -217,6 +217,17 @@ package y
 //@   ensures len(result) == 8 && be64(result, 0) == v
 //@   assigns nothing
 
+// EncodeTo (the bytes.Buffer variant of Encode): meta, user meta, the expiry as a varint for
+// which there is room whatever its value, then the value.
+//@ func (*ValueStruct).EncodeTo
+//@   props C20
+//@   light
+//@   assert[room-for-any-expiry] before call PutUvarint : len(arg0) >= 10 && arg1 == v.ExpiresAt
+//@   assert[meta-then-user-meta] before call WriteByte#2 : called(WriteByte#1) && arg1 == v.UserMeta
+//@   assert[meta-first] before call WriteByte#1 : arg1 == v.Meta
+//@   assert[expiry-bytes-written] before call Write#1 : len(arg1) == ret(PutUvarint#1)
+//@   assert[value-last] before call Write#2 : arg1 == v.Value
+
 //@ func SafeCopy
 //@   props C06
 //@   ensures[content] bytes(result) == old(bytes(src))
